@@ -491,7 +491,7 @@ def run():
                      for v in ("asis", "noerr", "respawn")]
             runs.append(("case generation (exhaustive at the bound)", "RunLifecycle_Gen",
                          "RunLifecycle_Gen.cfg" if thorough else "RunLifecycle_Genq.cfg", None))
-            futs = [ex.submit(vf.tlc, SPEC, mod, cfg, sd, 4 if thorough else 2, None, None, None, 3000) for _, mod, cfg, _ in runs]
+            futs = [ex.submit(vf.tlc, SPEC, mod, cfg, sd, 8 if thorough else 2, None, None, None, 3000) for _, mod, cfg, _ in runs]
             rg = None
             for (name, mod, cfg, want), f in zip(runs, futs):
                 r = f.result()
